@@ -16,7 +16,6 @@ def schemeStr : SigScheme → String
 def askJson : Ask → Json
   | .sha256 d => Json.mkObj [("ask", "sha256"), ("data", hex d)]
   | .hash id d => Json.mkObj [("ask", "hash"), ("hash", id), ("data", hex d)]
-  | .clientData raw => Json.mkObj [("ask", "clientData"), ("raw", hex raw)]
   | .sigVerify s h k msg sig =>
     Json.mkObj [("ask", "sigVerify"), ("scheme", schemeStr s), ("hash", h), ("key", keyMatJson k), ("msg", hex msg), ("sig", hex sig)]
   | .x509Parse der => Json.mkObj [("ask", "x509Parse"), ("der", hex der)]
@@ -76,7 +75,6 @@ def parseResp (q : Ask) (j : Json) : Except String Resp := do
   | .sha256 _ | .hash _ _ | .jwsChain .. | .jwsClaims .. =>
     return .bytes (← getHex j "bytes")
   | .jwsHeaders _ => return .nat (← getNat j "nat")
-  | .clientData _ => return .clientData ⟨← getHex j "type", ← getHex j "challenge", ← getHex j "origin"⟩
   | .sigVerify .. | .x509CheckSig .. => return .bool (← getBool j "bool")
   | .tpmAlgHash _ => return .nat (← getNat j "nat")
   | .sanView _ => return .san (← parseSans j)
